@@ -46,6 +46,10 @@ pub struct Case {
     /// write direction; the peer keeps sending)
     #[serde(default)]
     pub between: Vec<(u16, u8)>,
+    /// the first `preload` bytes of the stream are already in the read buffer the Framed is built
+    /// with (`FramedParts::with_read_buf` + `Framed::from_parts`), the transport delivers the rest
+    #[serde(default)]
+    pub preload: u16,
 }
 
 #[derive(Clone, Debug, PartialEq)]
@@ -194,8 +198,16 @@ where
     D: Decoder<Error = io::Error> + Unpin + CloseWrite,
     D::Item: ToItem,
 {
-    let io = MockIo { stream: c.stream.clone(), rscript: c.script.iter().copied().collect(), err_at: err, ..Default::default() };
-    let mut framed = Framed::new(io, codec);
+    // the injected error comes after at least one byte delivered by the transport: preloaded bytes
+    // are decoded only once a read has succeeded (or at EOF), an error on the very first read would
+    // legitimately precede them
+    let pre = (c.preload as usize).min(c.stream.len()).min(err.map(|e| e.0.saturating_sub(1)).unwrap_or(usize::MAX));
+    let io = MockIo { stream: c.stream.clone(), delivered: pre, rscript: c.script.iter().copied().collect(), err_at: err, ..Default::default() };
+    let mut framed = if pre > 0 {
+        Framed::from_parts(actix_codec::FramedParts::with_read_buf(io, codec, BytesMut::from(&c.stream[..pre])))
+    } else {
+        Framed::new(io, codec)
+    };
     let mut run = Run { converted_with_buffered: false, closed_before_end: false, items: vec![], none_seen: 0, pendings: 0, polls: 0 };
     let max_polls = (c.script.len() + c.stream.len() + want_items + 16) as u32;
     // BytesCodec: the number of frames is arrival dependent, poll until None
@@ -328,6 +340,7 @@ fn check_inner(c: &Case) -> CaseResult {
     obs.label_if(frames >= 2 && chunked, "multi-frame-chunked");
     obs.label_if(run.converted_with_buffered, "converted-mid-stream");
     obs.label_if(run.closed_before_end, "write-half-closed-while-reading");
+    obs.label_if(c.preload > 0 && !c.stream.is_empty(), "preloaded-read-buffer");
     Ok(obs)
 }
 
@@ -423,11 +436,11 @@ pub fn strategy(long: bool) -> impl Strategy<Value = Case> {
     prop::sample::select(if long { vec![Codec::LenU16, Codec::LenU16, Codec::Lines, Codec::Lines, Codec::Bytes, Codec::LenU8] } else { vec![Codec::LenU8, Codec::LenU16, Codec::Lines, Codec::Bytes] })
         .prop_flat_map(move |codec| {
             let stream = if long { stream_for(codec, true) } else { prop_oneof![3 => stream_for(codec, false), 1 => raw_stream().boxed()].boxed() };
-            (Just(codec), stream, script(long), prop::option::weighted(0.35, (any::<u16>(), 0u8..4)), prop::collection::vec((1u16..14, 0u8..4), 0..3))
+            (Just(codec), stream, script(long), prop::option::weighted(0.35, (any::<u16>(), 0u8..4)), prop::collection::vec((1u16..14, 0u8..4), 0..3), prop_oneof![3 => Just(0u16), 1 => 1u16..40, 1 => prop::sample::select(vec![1023u16, 1024, 8191, 8192, 8193, 20000])])
         })
-        .prop_map(|(codec, stream, script, e, between)| {
+        .prop_map(|(codec, stream, script, e, between, preload)| {
             let err_at = e.map(|(at, k)| (vcore::pick(at, stream.len() + 1), k));
-            Case { codec, stream, script, err_at, between }
+            Case { codec, stream, script, err_at, between, preload }
         })
 }
 
@@ -446,17 +459,18 @@ pub fn case_from_bytes(data: &[u8]) -> Case {
     let stream = u.take_rest().to_vec();
     let err_at = if e % 3 == 0 { Some(((at as usize * (stream.len() + 1)) >> 8, e / 3)) } else { None };
     let between = if bt % 2 == 0 { vec![] } else { vec![(1 + (bt as u16 >> 3) % 12, (bt >> 1) % 4)] };
-    Case { codec, stream, script, err_at, between }
+    let preload = if bt % 5 == 4 { (at as u16) % 24 } else { 0 };
+    Case { codec, stream, script, err_at, between, preload }
 }
 
-const RULE: &str = "(codec in {u8-length-prefixed with default decode_eof, u16-length-prefixed with stateful decode_eof, LinesCodec, BytesCodec}, byte stream built from frames of boundary-rich sizes plus truncation/junk or raw delimiter-rich bytes, read script of chunk sizes and Pendings, optional one I/O error at a byte offset, and up to two things done to the Framed between polls that must not change what it yields: into_parts+from_parts / into_map_io / into_map_codec / closing its write half while the peer keeps sending) run through Framed::poll_next on a scripted AsyncRead with a fresh waker per poll, compared item by item with a fresh codec decoding the whole stream at once; non-trivial = >=2 frames with a chunk boundary or Pending inside the stream, or stream > 8 KiB; distinct by the whole case";
+const RULE: &str = "(codec in {u8-length-prefixed with default decode_eof, u16-length-prefixed with stateful decode_eof, LinesCodec, BytesCodec}, byte stream built from frames of boundary-rich sizes plus truncation/junk or raw delimiter-rich bytes, read script of chunk sizes and Pendings, optional one I/O error at a byte offset, and up to two things done to the Framed between polls that must not change what it yields: into_parts+from_parts / into_map_io / into_map_codec / closing its write half while the peer keeps sending; optionally the first bytes of the stream are already in the read buffer the Framed is built from (FramedParts::with_read_buf)) run through Framed::poll_next on a scripted AsyncRead with a fresh waker per poll, compared item by item with a fresh codec decoding the whole stream at once; non-trivial = >=2 frames with a chunk boundary or Pending inside the stream, or stream > 8 KiB; distinct by the whole case";
 
 pub fn run(ctx: &Ctx) {
     ctx.assume("test codecs are prefix-consistent (decode on a longer buffer yields the same leading frames), as LinesCodec and length-prefixed codecs are; BytesCodec is judged by concatenation only");
     ctx.run_corpus::<Case>("framed-read", check_case);
     ctx.run_random(
         Part::new("framed-read", RULE, ctx.tier.scale(150_000, 10))
-            .floors(&[("pending", 0.3), ("io-error", 0.2), ("multi-frame-chunked", 0.3), ("decode-error", 0.05), ("converted-mid-stream", 0.1), ("write-half-closed-while-reading", 0.1)]),
+            .floors(&[("pending", 0.3), ("io-error", 0.2), ("multi-frame-chunked", 0.3), ("decode-error", 0.05), ("converted-mid-stream", 0.1), ("write-half-closed-while-reading", 0.05)]),
         || strategy(false),
         check_case,
     );
